@@ -14,7 +14,7 @@ CLAIMS = {
 }
 CLAIMS['C16'] = dict(
    technique='AST extraction of the pruner tables + exhaustive finite-order evaluation; SSA provenance / dominance rules for where the pruner comes from and how its result is used',
-   text='The pruner touches keys only through comparisons, so its soundness is a fact about small tables in compiler/optimizer. T1 extracts rangePrunerPred, reverseComparator, literalComparison, compare() and the and/or composition of buildRangePruner from the AST of the current tree and checks exhaustively over a 5-point total order plus NULL-as-max that pruner(min,max) implies no key in [min,max] satisfies the predicate (all comparison ops, literal on either side, and/or with opaque or comparison operands). S1/D1/S2/S3/B1/N1 decide on SSA, for all paths: every KeyPruner is derived from the filter actually pushed into that scan and the source sort keys; the deleter never gets one; a pruner result skips only after Type()==TypeBool && Bool(); min/max argument order and metadata tags; only pool-key comparisons reach the table; both publishers of bounds swap for descending pools; lake comparators use nullsMax=true. Does not decide agreement between compare() and the filter\'s coercing comparison for mixed-type keys, nor that seek-index bounds are true bounds.',
+   text='The pruner touches keys only through comparisons, so its soundness is a fact about small tables in compiler/optimizer. T1 extracts rangePrunerPred, reverseComparator, literalComparison, compare() and the and/or composition of buildRangePruner from the AST of the current tree and checks exhaustively over a 5-point total order plus NULL-as-max that pruner(min,max) implies no key in [min,max] satisfies the predicate (all comparison ops, literal on either side, and/or with opaque or comparison operands). S1/D1/S2/S3/B1/N1 decide on SSA, for all paths: every KeyPruner is derived from the filter actually pushed into that scan and the source sort keys; the deleter never gets one; a pruner result skips only after Type()==TypeBool && Bool(); min/max argument order and metadata tags; only pool-key comparisons reach the table; both publishers of bounds swap for descending pools, and the swap of the object bounds in Writer.Close can never be followed by a seek-index flush (B2: object.Max means last key written while entries are flushed); lake comparators use nullsMax=true. Does not decide agreement between compare() and the filter\'s coercing comparison for mixed-type keys, nor that seek-index bounds are true bounds.',
    note='Trusts the table extractor (fails closed on any unrecognised shape) and that a 5-point order + NULL suffices for comparison-only tables with at most three operands.',
    ref='DESIGN.md §2 C16')
 CLAIMS['C05'] = dict(
@@ -39,17 +39,17 @@ CLAIMS['C04'] = dict(
    ref='DESIGN.md §2 C04')
 CLAIMS['C10'] = dict(
    technique='borrowed-value ownership (E-own) and reader-value lifetime (use-after-next-Read) analyses on SSA, backward-slice dependence of the group key, stub detection',
-   text='Decides structural conditions behind memory-limit independence of aggregation and join, for all paths: (W1) no agg.Function Consume/ConsumeAsPartial (22 methods) nor groupby.Aggregator.Consume retains its argument, keys or anything derived without a copy; (K1) the string indexing the group table depends on both the flattened key bytes and keyTypes.Lookup(types); (W3) in join, groupby, spill, fuse, sort, merge and zio a value obtained from Read/Peek is neither used after the next Read on the same reader nor allowed to escape without a copy (loop-carried values included); (S3) spill.peeker.read copies nextRecord before advancing the file; (P1) no partial form is a panicking stub; (P2) state that a ConsumeAsPartial loop rebinds per element is initialised inside the loop. Does not decide the aggregates\' arithmetic, partial composition, early release on sorted input or join semantics.',
+   text='Decides structural conditions behind memory-limit independence of aggregation and join, for all paths: (W1) no agg.Function Consume/ConsumeAsPartial (22 methods) nor groupby.Aggregator.Consume retains its argument, keys or anything derived without a copy; (K1) the string indexing the group table depends on both the flattened key bytes and keyTypes.Lookup(types); (W3) in join, groupby, spill, fuse, sort, merge and zio a value obtained from Read/Peek is neither used after the next Read on the same reader nor allowed to escape without a copy (loop-carried values included); (S3) spill.peeker.read copies nextRecord before advancing the file; (P1) no partial form is a panicking stub; (P2) state that a ConsumeAsPartial loop rebinds per element is initialised inside the loop; (J1) at the kernel call of join.New the parent, key and declared direction of one side come from the same side of the dag.Join on every path; (J2) the optimizer declares a join input sorted only from that side\'s parent under a test of that side\'s key. Does not decide the aggregates\' arithmetic, partial composition, early release on sorted input or join semantics.',
    note='zio.Reader contract (value valid until the next Read on the same reader); reader identity by receiver expression; calls leaving the package do not retain arguments.',
    ref='DESIGN.md §2 C10')
 CLAIMS['C12'] = dict(
    technique='who-may-call tables over resolved call sites, lock-state dataflow, critical-section atomicity, dominance / avoid-reachability protocol checks, backward-slice provenance of commit ids',
-   text='Decides, for all paths, the protocol conditions that linearizability of lake metadata updates rests on: (W1) the journal entry at+1 is the only commit point and the sets of writers of PutIfNotExists, CommitAt and journal entry objects are closed; (P1) in journal.Store.commit the position and the constraint are read in one read-locked section, every attempt re-loads first, a lost race (os.IsExist) leads to another attempt or an error but never to a nil return, and success invalidates the cached position; (P2) Branch.commit performs tip lookup -> constructor -> commit object -> branch update, with a constraint comparing against the parent captured before config.Commit is overwritten and removal of the commit object on every failure path; (P3) every constructor passed to Branch.commit builds snapshots, paths, patches and the new parent from the retry\'s parent, never from the handle\'s stale Commit; (P4) the constraint key handed to CommitAt is compared before the entry is written; (P5) the position an entry is written at derives from the HEAD read and never from a probe for existing entries; (L1) journal.Store lock discipline; (N1) names registered last with cleanup. Does not decide linearizability itself, non-atomic file puts, or inter-process cache coherence.',
+   text='Decides, for all paths, the protocol conditions that linearizability of lake metadata updates rests on: (W1) the journal entry at+1 is the only commit point and the sets of writers of PutIfNotExists, CommitAt and journal entry objects are closed; (P1) in journal.Store.commit the position and the constraint are read in one read-locked section, every attempt re-loads first, a lost race (os.IsExist) leads to another attempt or an error but never to a nil return, and success invalidates the cached position; (P2) Branch.commit performs tip lookup -> constructor -> commit object -> branch update, with a constraint comparing against the parent captured before config.Commit is overwritten and removal of the commit object on every failure path; (P3) every constructor passed to Branch.commit builds snapshots, paths, patches and the new parent from the retry\'s parent, never from the handle\'s stale Commit; (P4) the constraint key handed to CommitAt is compared before the entry is written; (P5) the position an entry is written at derives from the HEAD read and never from a probe for existing entries; (F1) metadata lookups read the journal HEAD: the time-bounded journal.Store.Lookup has no caller, every table reader calls load() first and load() reads HEAD unconditionally; (L1) journal.Store lock discipline; (N1) names registered last with cleanup. Does not decide linearizability itself, non-atomic file puts, or inter-process cache coherence.',
    note='PutIfNotExists is atomic where supported; closures run under the lock state of the call that invokes them.',
    ref='DESIGN.md §2 C12')
 CLAIMS['C13'] = dict(
    technique='who-may-call over resolved call sites, freshness (ownership) analysis of snapshot mutator receivers across two caller levels, constructor-only field writes',
-   text='Decides structural conditions of commit immutability and reader isolation: (W1) storage deletions occur only at six frozen sites (vacuum, aborts of never-committed writes, lost-race commit object, pool removal), and Object.Remove / commits.Store.Remove only from their single legitimate callers; (R1) no function of the kernel, optimizer, lake scan operators, vector runtime or lake/data calls a name->commit resolver (witness: the semantic analyzer\'s compile-time resolutions); (M1) every Snapshot mutator call acts on a snapshot that is fresh in that computation, never on one obtained from the store\'s cache; (M2) a lister\'s snapshot is written only at construction. Does not decide result constancy, cross-process snapshot files or vacuum semantics.',
+   text='Decides structural conditions of commit immutability and reader isolation: (W1) storage deletions occur only at six frozen sites (vacuum, aborts of never-committed writes, lost-race commit object, pool removal), and Object.Remove / commits.Store.Remove only from their single legitimate callers; (R1) no function of the kernel, optimizer, lake scan operators, vector runtime or lake/data calls a name->commit resolver (witness: the semantic analyzer\'s compile-time resolutions); (M1) every Snapshot mutator call acts on a snapshot that is fresh in that computation, never on one obtained from the store\'s cache; (M2) a lister\'s snapshot is written only at construction; (R2) names are resolved against the journal HEAD, never from the time-bounded cache of journal.Store.Lookup (shared with C12-F1), so a reader started after an acknowledged commit sees it. Does not decide result constancy, cross-process snapshot files or vacuum semantics.',
    note='Interface calls on storage.Engine are resolved by method; freshness is tracked through phis, locals and up to two caller levels.',
    ref='DESIGN.md §2 C13')
 CLAIMS['C14'] = dict(
@@ -69,7 +69,7 @@ CLAIMS['C17'] = dict(
    ref='DESIGN.md §2 C17')
 CLAIMS['C19'] = dict(
    technique='error-flow analysis with must-report-before-return on failing branches, must-pass-through on the control-message writer, type-table agreement between server writer, client unmarshaler and client scanner, stub detection behind a shared interface',
-   text='Decides structural conditions of service/direct agreement: (E1) in all 22 HTTP handlers no error result is dropped and, on every branch where an error is non-nil, every path to a return first reports to the client (w.Error, WriteError, the handler\'s handleError closure or an explicit status); (E2) every path through queryio.Writer.WriteControl writes to the response — violated on today\'s tree for responses without control frames (genuine, reproduced, recorded as a known finding); (E3) the load request body is a pipe closed with the error of the copy (CloseWithError) and never owned by the ZNG writer, so a failing source cannot end the body cleanly; (K1) every api.Query* message the server writes is bound in the client\'s unmarshaler and handled in the client scanner, and QueryError becomes a returned error; (K2) every lake/api.Interface method of the remote implementation issues a request (the RemoveBranch stub was fixed). Does not decide equality of lake state or output between the two access paths.',
+   text='Decides structural conditions of service/direct agreement: (E1) in all 22 HTTP handlers no error result is dropped and, on every branch where an error is non-nil, every path to a return first reports to the client (w.Error, WriteError, the handler\'s handleError closure or an explicit status); (E2) every path through queryio.Writer.WriteControl writes to the response — violated on today\'s tree for responses without control frames (genuine, reproduced, recorded as a known finding); (E4) the late-error callback of handleQuery writes the in-band error and records it for the status endpoint on every path; (K3) list-valued inputs (slice parameters of the remote implementation, slice fields of api.*Request in handlers) are never read only at a constant index — violated on the original tree by CreatePool/handlePoolPost (only the first sort key crossed the service), reproduced and fixed; (E3) the load request body is a pipe closed with the error of the copy (CloseWithError) and never owned by the ZNG writer, so a failing source cannot end the body cleanly; (K1) every api.Query* message the server writes is bound in the client\'s unmarshaler and handled in the client scanner, and QueryError becomes a returned error; (K2) every lake/api.Interface method of the remote implementation issues a request (the RemoveBranch stub was fixed). Does not decide equality of lake state or output between the two access paths.',
    note='Helpers that take the ResponseWriter report their own errors; deferred cleanup calls are not obligations.',
    ref='DESIGN.md §2 C19')
 CLAIMS['C06'] = dict(
@@ -79,12 +79,12 @@ CLAIMS['C06'] = dict(
    ref='DESIGN.md §2 C06')
 CLAIMS['C07'] = dict(
    technique='AST/type-switch analysis with computed case sets against confirmed operator tables, SSA backward slices for per-leg copies and operand order, avoid-reachability for flag pairing',
-   text='Decides structural necessary conditions of optimizer soundness: (D1) the default arms of the demand inference over dag.Op and dag.Expr yield demand.All() and the default arm of analyzeSortKeys yields unknown order, so an unlisted or new operator is treated conservatively; (D2) every op placed into parallel paths is a copyOp/copyOps made inside the per-leg loop; (D3) PartialsOut on the legs and PartialsIn on the tail are set on the same paths and guarded against re-splitting; (D4) mergeFilters builds and(first, second); (D5) the operators that pass the sort key through, that end a concurrent path, and that are lifted into legs are exactly the confirmed tables; (D6) Summarize.InputSortDir and isKeyOfSummarize agree that input order is usable only when a grouping key is assigned to the sort-key name and computed by the key or an order-preserving call; (D7) every narrowing case of the demand inference selects every expression-bearing field of its node and a pass-through operator hands the downstream demand upstream; (D8) a predicate taken off the chain by matchFilter is stored into the scan Filter before the shortened chain is used. Does not decide semantic equivalence of the optimized and the analyzed plan, which is a relation between two executions.',
+   text='Decides structural necessary conditions of optimizer soundness: (D1) the default arms of the demand inference over dag.Op and dag.Expr yield demand.All() and the default arm of analyzeSortKeys yields unknown order, so an unlisted or new operator is treated conservatively; (D2) every op placed into parallel paths is a copyOp/copyOps made inside the per-leg loop; (D3) PartialsOut on the legs and PartialsIn on the tail are set on the same paths and guarded against re-splitting; (D4) mergeFilters builds and(first, second); (D5) the operators that pass the sort key through, that end a concurrent path, and that are lifted into legs are exactly the confirmed tables; (D6) Summarize.InputSortDir and isKeyOfSummarize agree that input order is usable only when a grouping key is assigned to the sort-key name and computed by the key or an order-preserving call; (D7) every narrowing case of the demand inference selects every expression-bearing field of its node and a pass-through operator hands the downstream demand upstream; (D8) a predicate taken off the chain by matchFilter is stored into the scan Filter before the shortened chain is used; (D9/N2) the merge that replaces a lifted sort takes its order from Args[0].Order and Reverse together, and a sort is split into per-leg sorts plus a merge only after its null placement (NullsFirst) was consulted — both violated on the original tree (fork | sort -r; sort -nulls first), reproduced and fixed. Does not decide semantic equivalence of the optimized and the analyzed plan, which is a relation between two executions.',
    note='Operator tables confirmed by reading; changing them deliberately requires re-confirmation (the check then reports the changed entry).',
    ref='DESIGN.md §2 C07')
 CLAIMS['C08'] = dict(
    technique='lock-state dataflow on the shared lister/slicer, SSA provenance of the merge key, shared optimizer rules',
-   text='Decides structural conditions of parallelism independence: (L1/L2/L4) meta.Lister and meta.Slicer state shared by all scatter legs is only touched under their mutex, helpers are requires-held; (D2/D3/D5) legs get copies, partials are paired, and the confirmed sets of operators end a concurrent path or are lifted into legs; (M1) the Merge built by parallelizeSeqScan is keyed on the sort key concurrentPath reports for this path, under needMerge, and Combine is used only when no order is needed; (L3) the Slicer pulls from its shared parent and stashes the result in one critical section. Does not decide equality of results across degrees of parallelism or correctness of partial aggregates.',
+   text='Decides structural conditions of parallelism independence: (L1/L2/L4) meta.Lister and meta.Slicer state shared by all scatter legs is only touched under their mutex, helpers are requires-held; (D2/D3/D5) legs get copies, partials are paired, and the confirmed sets of operators end a concurrent path or are lifted into legs; (M1) the Merge built by parallelizeSeqScan is keyed on the sort key concurrentPath reports for this path, under needMerge, and Combine is used only when no order is needed; (L3) the Slicer pulls from its shared parent and stashes the result in one critical section; (N1) the merge comparator of the kernel orders nulls as the lake does (nullsMax constant true); (N2/D9) shared with C07: lifted sorts agree with the merge on direction and null placement. Does not decide equality of results across degrees of parallelism or correctness of partial aggregates.',
    note='Shares D2/D3/D5 with C07 (decided by the same code).',
    ref='DESIGN.md §2 C08')
 CLAIMS['C09'] = dict(
